@@ -175,6 +175,15 @@ func init() {
 			if o.Cfg.Variant == "mvp3" && cyc != c.Exp.Cyc3 {
 				return true, fmt.Sprintf("MVP-3 cycles %d, LRU-cache latency model %d", cyc, c.Exp.Cyc3)
 			}
+			if o.Cfg.Variant == "mvp4" && c.Exp.Cyc4 > 0 {
+				r.mu.Lock()
+				n4, _ := r.Cov["mvp4_cycle_model_comparisons"].(int64)
+				r.Cov["mvp4_cycle_model_comparisons"] = n4 + 1
+				r.mu.Unlock()
+				if cyc != c.Exp.Cyc4 {
+					return true, fmt.Sprintf("MVP-4 cycles %d, cycle-accurate pipeline model (spec/Mvp4) %d", cyc, c.Exp.Cyc4)
+				}
+			}
 			if c.Fam == "Timing" {
 				k := oneLine(c.Prog) + " [image " + c.Img + "]"
 				mu.Lock()
@@ -220,8 +229,30 @@ func init() {
 
 // runFamilyAll is runFamily but calls judge for every observation (also the agreeing ones).
 func runFamilyAll(r *Reporter, prop string, runs []famRun, configs func(c *ProgCase) []Config, nontrivial func(c *ProgCase) bool, judge judgeFn) {
+	if sel := os.Getenv("VERIF_RUNS"); sel != "" { // debugging aid: restrict to one TLC run
+		var idx int
+		fmt.Sscan(sel, &idx)
+		if idx < len(runs) {
+			runs = runs[idx : idx+1]
+		}
+	}
+	if only := os.Getenv("VERIF_ONLY_VARIANT"); only != "" { // debugging aid
+		inner := configs
+		configs = func(c *ProgCase) []Config {
+			var out []Config
+			for _, cfg := range inner(c) {
+				if cfg.Variant == only {
+					out = append(out, cfg)
+				}
+			}
+			return out
+		}
+	}
 	for _, fr := range runs {
 		o := TLCOpts{Module: fr.Module, Cfg: famCfg(fr.Consts), Simulate: fr.Simulate, Depth: fr.Depth, Seed: seed*1000 + fr.SeedOff}
+		if prop == "C12" {
+			o.Env = map[string]string{"VERIF_CYC4": "1"}
+		}
 		st := streamCases(r, o, 16, func(c *ProgCase) {
 			r.Eval(c.Key(), nontrivial == nil || nontrivial(c))
 			r.Sample(map[string]any{"family": c.Fam, "program": oneLine(c.Prog), "regs0": c.Regs0, "expected_cycles_mvp1": c.Exp.Cyc1, "n": c.Exp.N})
@@ -233,6 +264,9 @@ func runFamilyAll(r *Reporter, prop string, runs []famRun, configs func(c *ProgC
 					continue
 				}
 				desc := fmt.Sprintf("%s on %s: %s [%s]", oneLine(c.Prog), cfg, what, strings.Join(c.Tags, ","))
+				if os.Getenv("VERIF_VERBOSE") != "" {
+					fmt.Println("FAIL", desc)
+				}
 				if id := matchFinding(prop, c.Tags, &cfg, "cycles"); id != "" {
 					r.Known(id, desc)
 					continue
